@@ -127,7 +127,7 @@ fn cut_class(recs: &[Rec], len: usize) -> &'static str {
             return if r.is_commit() { "at-transaction-boundary" } else if i + 1 == last { "before-last-commit-marker" } else { "at-frame-boundary" };
         }
         if len > r.start && len < r.end {
-            return if i == last { "inside-last-commit-marker" } else { "mid-record" };
+            return if i == last { "inside-last-commit-marker" } else if i == 0 { "inside-first-record" } else { "mid-record" };
         }
     }
     "beyond"
@@ -137,6 +137,10 @@ fn cut_class(recs: &[Rec], len: usize) -> &'static str {
 /// single-segment check, with first / last / non-last meaning positions in the whole history.
 pub fn class_mm(log: &BuiltMulti, mm: &MM) -> String {
     match mm {
+        // byte-level damage: operator @ record region first touched @ position of the segment file
+        MM::InSeg { seg, m: m @ (M::Flip { off, .. } | M::Zero { off, .. }) } => {
+            format!("{}@{}@{}", class_at(&view(log, *seg), m, 0, 0), frame::region_of(&log.records[*seg], *off), seg_pos(log, *seg))
+        }
         MM::InSeg { seg, m } => class_at(&view(log, *seg), m, log.txs_of_seg(*seg as u64 + 1).start, log.n()),
         MM::Trunc { seg, len } => format!("truncate-segment({},{})", seg_pos(log, *seg), cut_class(&log.records[*seg], *len)),
         MM::DeleteFile { seg } => format!("delete-segment-file({})", seg_pos(log, *seg)),
@@ -186,7 +190,8 @@ pub fn enumerate_mm(a: &BuiltMulti, b: &BuiltMulti, bytes: u8, all_cuts: bool) -
             if si < sj {
                 out.push(MM::SwapFiles { a: si, b: sj });
             }
-            if si != sj {
+            // (overwriting with an empty file is the truncation to zero length)
+            if si != sj && !a.segments[si].is_empty() {
                 out.push(MM::Overwrite { src: si, dst: sj });
             }
         }
@@ -327,7 +332,7 @@ pub fn eval_mm(a: &BuiltMulti, mm: &MM, segs: &BTreeMap<u64, Vec<u8>>, st: &mut 
         let range = a.txs_of_seg(id);
         let own = &a.txs[range.clone()];
         let local_cls = match mm {
-            MM::InSeg { m, .. } => class_at(&view(a, *seg), m, 0, own.len()),
+            MM::InSeg { m, .. } if !m.byte_level() => class_at(&view(a, *seg), m, 0, own.len()),
             _ => cls.clone(),
         };
         if let Some(img) = segs.get(&id) {
